@@ -20,7 +20,7 @@ type CaseC08 struct {
 	Sep       string                 `json:"sep,omitempty"`
 	UsePath   bool                   `json:"use_path,omitempty"` // filter clause on ValuesForPath(Steps) instead of ValuesForKey(Key)
 	Steps     []Step                 `json:"steps,omitempty"`
-	Unrelated uint16                 `json:"unrelated_opts,omitempty"`
+	Unrelated uint32                 `json:"unrelated_opts,omitempty"`
 	Alias     *AliasSpec             `json:"alias,omitempty"` // one container object gets a second parent in the subject Map
 }
 
